@@ -24,7 +24,9 @@ BODIES = {
                     "[[t.q + y for t in j.tr] for j in x.jets]"],
     ("Jet", "Int"): ["x.pt + y", "y", "x", "(y, x.pt)", "x.tr.Select(lambda t: t.q + y)", "x.tr.Select(lambda y: y.q)",
                      "x.tr.Select(lambda t: (lambda y: y + t.q)(y))", "x.tr.Select(lambda j: j.q + y)",
-                     "x.tr.Select(lambda e: (e.q, y))"],
+                     "x.tr.Select(lambda e: (e.q, y))",
+                     "x.tr.Select(lambda t: x.tr.Select(lambda t_1: (t.q, t_1.q, y)))",
+                     "x.tr.Select(lambda t, t_1=1: (t.q, t_1, y))" if False else "x.tr.Select(lambda t: (lambda t_1: (t.q, t_1, y))(2))"],
 }
 FORMS = ("def1", "defdoc", "lambda", "multi")
 
